@@ -148,7 +148,8 @@ def FwdImpl.renderItem (f : FwdImpl) : FwdItem → GToks
     let rExpr := changeOwned ["__rhs"] f.rhs implR f.rhsIsRef
     implItem autoDerived (U f.generics.implToks) (bt +++ angle implRhs) implThis (U f.generics.whereToksIn)
       ([typeM "Output", "="] +++ U (f.output.getD .never).toks +++ [";", fnM bf] +++
-        paren (["self", ",", "__rhs", ":"] +++ implRhs) +++ ["->", "Self", pathM "Output"] +++
+        -- the output type itself, not `Self::Output`: the self type may be an enum with a variant `Output` (F33)
+        paren (["self", ",", "__rhs", ":"] +++ implRhs) +++ "->" ::: U (f.output.getD .never).toks +++
         brace (ufcs l (bt +++ angle r) bf +++ paren (lExpr +++ "," ::: rExpr)))
   | .assign rhs callL =>
     let bt := opTraitPath f.op .binary
@@ -169,7 +170,7 @@ def FwdImpl.renderItem (f : FwdImpl) : FwdItem → GToks
     let rhs := U f.rhsOrig.toks
     implItem autoDerived (U f.generics.implToks) (bt +++ angle rhs) this (U f.generics.whereToksIn)
       ([typeM "Output", "="] +++ this +++ [";", fnM bf] +++ paren (["mut", "self", ",", "__rhs", ":"] +++ rhs) +++
-        ["->", "Self", pathM "Output"] +++
+        "->" ::: this +++
         brace (ufcs this (at_ +++ angle rhs) af +++ paren ["&", "mut", "self", ",", "__rhs"] +++ [";", "self"]))
 
 def FwdImpl.render (f : FwdImpl) : List GToks := f.items.map f.renderItem
